@@ -217,8 +217,6 @@ def rule_r6(text, newsig, fired):
     text, k = R6_SCALAR.subn(lambda mo: mo.group(1), text)
     text = R6_LET.sub(drop, text)
     fired['R6'] = fired.get('R6', 0) + 1 + n[0] + k
-    if 'scratchpad' in text:
-        raise GenError('R6: scratchpad still referenced after lifting')
     return text
 
 
@@ -309,6 +307,9 @@ def parse_template(tpl_text, tpl_dir='.'):
             arg = arg.strip()
             if word == 'mode':
                 parts.append(('mode', arg))
+                continue
+            if word == 'scan' and cur is None:
+                parts.append(('scan', ln, arg))
                 continue
             if word in ('item', 'slice'):
                 if cur is not None:
@@ -873,6 +874,20 @@ def generate(tpl_path, unit):
     for p in parts:
         if p[0] == 'mode':
             mode = p[1]
+        elif p[0] == 'scan':
+            # //@scan NAME <file> /regex/ : syntactic obligation - number of matches in the (comment-free) file as a constant
+            mm = re.match(r'^(\w+)\s+(\S+)\s+/(.*)/$', p[2], re.S)
+            if not mm:
+                raise GenError('template line %s: bad //@scan' % p[1])
+            try:
+                fsrc = strip_comments(open(os.path.join(REPO, mm.group(2))).read())
+            except OSError as e:
+                raise GenError('anchor lost: cannot read %s: %s' % (mm.group(2), e))
+            n = len(re.findall(mm.group(3), fsrc, flags=re.S))
+            out_lines.append('pub const %s: usize = %d; //vx:scan' % (mm.group(1), n))
+            origins.append(('tpl', p[1]))
+            items.append({'file': mm.group(2), 'path': '(syntactic scan /%s/)' % mm.group(3)[:60], 'file_sha256': sha256(fsrc),
+                          'lines': None, 'rules_fired': {}, 'erasure_check': 'n/a (scan: %d matches)' % n, 'scan': {'const': mm.group(1), 'matches': n}})
         elif p[0] == 'text':
             out_lines.append(p[2])
             origins.append(('tpl', p[1]))
